@@ -73,7 +73,11 @@ def run_contract_task(task):
         prove_error = None
         try:
             eng = _mk_engine(repo, contracts, ftypes, mods, "prove", 0)
+            # a function whose symbolic execution does not finish is UNDECIDED (then tried in refute mode), never a hang: the
+            # slowest function of the unchanged tree takes < 90 s
+            eng.deadline = time.time() + opts.get("prove_budget_s", 420)
             summ = verify_function(eng, c)
+            eng.deadline = None
             out["summary"] = summ
             parallel_discharge([ob for ob in eng.obligs if ob.meta.get("kind") != "canary"], opts.get("timeout_ms", 20000), opts.get("fork", 4))
             discharge_canaries([ob for ob in eng.obligs if ob.meta.get("kind") == "canary"])
